@@ -986,6 +986,12 @@ func (s *Service) runWith(wid string, cb func()) {
 	simYield("runWith.beforeLock", wid)
 
 	s.mu.Lock()
+	// A nil work queue means the service is closing. Adding work now would
+	// recreate the queue and keep the workers from ever exiting.
+	if s.workqueue == nil {
+		s.mu.Unlock()
+		return
+	}
 	// Get current work queue for the resource
 	var w *work
 	var ok bool
